@@ -877,6 +877,52 @@ def static_checks(tier, seed):
         viol("write_mode_overwrote_existing", "write/exists:open-by-writer",
              "the first writer's file is not what it wrote after a second "
              "mode-'write' attempt on the same name: %r" % (e,))
+    # a user's named file that happens to live in the temporary directory is
+    # still the user's: remove() must refuse
+    report["mode_matrix_cells"] += 1
+    disk = simdisk.SimDisk()
+    simdisk.install(disk)
+    user = "/simtmp/pt_userfile.hdf5"
+    fpt = ptm.FileProcessTensor(mode="write", filename=user,
+                                hilbert_space_dimension=2, dt=0.1)
+    fpt.set_mpo_tensor(0, np.ones((1, 1, 4, 4), dtype=complex))
+    try:
+        fpt.remove()
+        rerr = None
+    except Exception as e:  # noqa: BLE001
+        rerr = e
+    disk.sync_closed()
+    if rerr is None or not disk.exists(user):
+        viol("remove_not_refused", "write/named-in-tempdir",
+             "remove() deleted a named file because it lies in the "
+             "temporary directory")
+    # two anonymous process tensors never share a file
+    report["mode_matrix_cells"] += 1
+    disk = simdisk.SimDisk()
+    simdisk.install(disk)
+    a1 = ptm.FileProcessTensor(mode="write", hilbert_space_dimension=2)
+    a1.set_mpo_tensor(0, np.ones((1, 1, 4, 4), dtype=complex))
+    a2 = ptm.FileProcessTensor(mode="write", hilbert_space_dimension=2)
+    a2.set_mpo_tensor(0, 2 * np.ones((1, 1, 4, 4), dtype=complex))
+    n1, n2 = a1.filename, a2.filename
+    a1.close()
+    a2.close()
+    disk.sync_closed()
+    ok = n1 != n2
+    if ok:
+        try:
+            t1 = ptm.import_process_tensor(n1, "simple").get_mpo_tensor(
+                0, transformed=False)
+            t2 = ptm.import_process_tensor(n2, "simple").get_mpo_tensor(
+                0, transformed=False)
+            ok = abs(t1[0, 0, 0, 0] - 1) < 1e-12 and \
+                abs(t2[0, 0, 0, 0] - 2) < 1e-12
+        except Exception:  # noqa: BLE001
+            ok = False
+    if not ok:
+        viol("write_mode_overwrote_existing", "anonymous/anonymous",
+             "two anonymous file process tensors ended up in the same file "
+             "(%s, %s) or lost their content" % (n1, n2))
     # PtTempo front-end: overwrite flag honoured
     for overwrite in (False, True):
         report["mode_matrix_cells"] += 1
